@@ -382,6 +382,122 @@ def covers(intervals, eqs):
     return False, f"coefficients consumed: {desc}; they cover [0, {cur}) but the list has indices [0, {end})"
 
 
+def check_polynomial_algebra(r, repo, tier, rule="R16.6"):
+    """polynomial.py is interpreted (sa/absint.py) on coefficient lists of formal symbols, the indeterminate x being a symbol
+    too; every result is compared with the polynomial it denotes as an exact polynomial identity (rational coefficients).
+    This is C16's 'exact polynomial algebra' for all coefficient values at once, for the degrees listed."""
+    from fractions import Fraction
+    from sa.absint import Interp, Closure, Unsupported as IUnsupported, PyRaise
+    from rules.C12 import Poly
+    import math
+
+    rel = "polynomial.py"
+    X = Poly.atom("x")
+
+    def xpow(k):
+        out = Poly.const(1)
+        for _ in range(k):
+            out = out * X
+        return out
+
+    def denote(coeffs, reverse=False):
+        cs = list(reversed(coeffs)) if reverse else list(coeffs)
+        tot = Poly.const(0)
+        for i, c in enumerate(cs):
+            tot = tot + Poly.lift(c) * xpow(i)
+        return tot
+
+    def call(name, *args, **kw):
+        I = Interp(repo, max_steps=20_000_000)
+        I.ext_calls = {"math.comb": math.comb, "math.log": math.log, "numpy.log": math.log}
+        fn = repo.func(rel, name)
+        try:
+            return I.call(Closure(fn, {}, I, rel, bound_self=None), list(args), dict(kw))
+        except (IUnsupported, PyRaise, TypeError, RecursionError) as e:
+            raise AnalysisError(f"polynomial.{name} is not interpretable on symbolic coefficients: {getattr(e, 'what', e)}")
+
+    def syms(prefix, n):
+        return [Poly.atom(f"{prefix}{i}") for i in range(n)]
+
+    def ob(key, ok, detail):
+        r.ob(rule, f"{rel}::{key}", bool(ok), detail, loc(rel, repo.func(rel, key.split("(")[0].split()[0])))
+
+    sizes = (1, 2, 3, 4) if tier == "quick" else (1, 2, 3, 4, 5, 6)
+    for rev in (False, True):
+        for n in sizes:
+            P = syms("p", n)
+            for m in sizes:
+                Q = syms("q", m)
+                got = call("multiply", P, Q, reverse=rev)
+                ob(f"multiply (len {n} x len {m}, reverse={rev})", isinstance(got, list) and denote(got, rev) == denote(P, rev) * denote(Q, rev),
+                   "the coefficient list does not denote P(x) * Q(x)")
+                got = call("add", P, Q, reverse=rev)
+                # in the reversed convention the shorter polynomial is aligned at the highest power
+                want = denote(P, rev) + denote(Q, rev)
+                ob(f"add (len {n} + len {m}, reverse={rev})", isinstance(got, list) and denote(got, rev) == want, "the coefficient list does not denote P(x) + Q(x)")
+            for k in (0, 1, 2, 3):
+                got = call("derivative", P, n=k, reverse=rev)
+                cs = list(reversed(P)) if rev else list(P)
+                for _ in range(k):
+                    cs = [cs[i] * i for i in range(1, len(cs))]
+                want = denote(cs, False)
+                ob(f"derivative (len {n}, order {k}, reverse={rev})", isinstance(got, list) and denote(got, rev) == want, "the coefficient list does not denote the derivative")
+            z0 = Poly.atom("z0")
+            got = call("taylorat", P, z0, reverse=rev)
+            if isinstance(got, list):
+                cs = list(reversed(got)) if rev else list(got)
+                tot = Poly.const(0)
+                pw = Poly.const(1)
+                for c in cs:
+                    tot = tot + Poly.lift(c) * pw
+                    pw = pw * (X - z0)
+                okt = tot == denote(P, rev)
+            else:
+                okt = False
+            ob(f"taylorat (len {n}, reverse={rev})", okt, "sum C_m (x - z0)**m differs from P(x)")
+            R = syms("r", n)
+            got = call("rpolynomial", X, R, reverse=rev)
+            cs = list(reversed(R)) if rev else list(R)
+            tot, prod = Poly.const(0), Poly.const(1)
+            for i, c in enumerate(cs):
+                prod = prod * c
+                tot = tot + prod * xpow(i)
+            ob(f"rpolynomial (len {n}, reverse={rev})", isinstance(got, Poly) and got == tot, "the value differs from the polynomial whose coefficient ratios are given")
+    # division: symbolic dividend (generic coefficients), concrete divisors
+    for rev in (False, True):
+        for D in ([3, -2, 5], [1, 0, 2], [7], [2, 1], [Fraction(1, 2), 0, 0, 3]):
+            for n in (1, 2, 3, 4, 5, 6):
+                P = syms("p", n)
+                got = call("divmod", P, list(D), reverse=rev)
+                okd = False
+                detail = f"divmod returned {got!r}"
+                if isinstance(got, tuple) and len(got) == 2 and isinstance(got[0], list) and isinstance(got[1], list):
+                    Qc, Rc = got
+                    okd = denote(P, rev) == denote(Qc, rev) * denote(D, rev) + denote(Rc, rev) and len(Rc) < len(D)
+                    detail = f"P != Q*D + R or deg R >= deg D (len Q = {len(Qc)}, len R = {len(Rc)})"
+                ob(f"divmod (len {n} by {D}, reverse={rev})", okd, detail)
+    # every evaluation scheme of fast_polynomial, degrees 0..N
+    maxdeg = 12 if tier == "quick" else 24
+    schemes = [None] + [repo.func(rel, nm) for nm in ("canonical_scheme", "horner_scheme", "estrin_dac_scheme", "balanced_dac_scheme")]
+    for sc in schemes:
+        for rev in (False, True):
+            bad = []
+            for deg in range(0, maxdeg + 1):
+                C = syms("c", deg + 1)
+                I = Interp(repo, max_steps=50_000_000)
+                I.ext_calls = {"math.log": math.log, "numpy.log": math.log, "math.comb": math.comb}
+                scv = None if sc is None else Closure(sc, {}, I, rel, bound_self=None)
+                try:
+                    got = I.call(Closure(repo.func(rel, "fast_polynomial"), {}, I, rel, bound_self=None), [X, C], dict(reverse=rev, scheme=scv))
+                except (IUnsupported, PyRaise, TypeError, RecursionError) as e:
+                    raise AnalysisError(f"polynomial.fast_polynomial(scheme={getattr(sc, 'name', None)}) is not interpretable: {getattr(e, 'what', e)}")
+                if not (isinstance(got, Poly) and got == denote(C, rev)):
+                    bad.append(deg)
+            nm = "default" if sc is None else sc.name
+            r.ob(rule, f"{rel}::fast_polynomial scheme={nm} reverse={rev} degrees 0..{maxdeg}", not bad,
+                 f"the value differs from sum c_i x**i for degree(s) {bad[:12]}", loc(rel, repo.func(rel, "fast_polynomial")))
+
+
 def run(repo, tier):
     r = Report("C16", tier, repo, level="other", design_ref="§3/C16")
     r.explanation = (
@@ -397,6 +513,7 @@ def run(repo, tier):
     r.rule("R16.2", "the duplicated implementations (polynomial.py / floating_point_algorithms.py) consume coefficients identically", floor=2)
     r.rule("R16.4", "a running power/accumulator updated in a loop (`v *= w`) is updated on every path through the loop body", floor=1)
     r.rule("R16.5", "polynomial division shifts the divisor by the degree of the current remainder, not by an iteration counter", floor=1)
+    r.rule("R16.6", "polynomial algebra on symbolic coefficients: multiply, add, derivative, taylorat, rpolynomial and every scheme of fast_polynomial return exactly the polynomial they denote (identity of exact polynomials in the coefficient symbols and x)", floor=100)
     r.rule("R16.3", "exponent bookkeeping: fast_exponent_by_squaring returns x**n; the high part of a split is multiplied by x**d", floor=6)
 
     signatures = {}
@@ -521,6 +638,7 @@ def run(repo, tier):
             ok = any(h == f"coeffs[{pw}:]" for h in his) and any(l == f"coeffs[:{pw}]" for l in los)
             detail = f"high part {his}, low part {los}, power x**{pw}: P = A*x**d + B needs A from coeffs[d:], B from coeffs[:d] and the same d"
         r.ob("R16.3", f"{rel}::fast_polynomial split recombination", ok, detail, loc(rel, g))
+    check_polynomial_algebra(r, repo, tier)
     # ---- R16.4 running powers: `z0e *= z0` must not be skipped by a `continue` / conditional
     n_acc = 0
     for rel in ("polynomial.py",):
